@@ -131,8 +131,21 @@ def candidates(path, text):
         m = re.search(r'\(([a-z_][\w\.]*), ([a-z_][\w\.]*)\)', l)
         if m and m.group(1) != m.group(2) and not st.startswith(('fn ', 'pub fn', 'let (', 'for (', 'Some((', 'Ok((')) and '|' not in l:
             out.append((i, l[:m.start()] + '(%s, %s)' % (m.group(2), m.group(1)) + l[m.end():], 'arg-swap'))
+    # ---- fourth operator set: a statement executed twice, two adjacent statements exchanged ("exactly once", "in order")
+    def simple_stmt(l):
+        st = l.strip()
+        return (st.endswith(';') and not st.startswith(('let ', 'pub ', 'const ', 'static ', 'type ', 'fn ', 'return', 'break', 'continue', '}', ')', ']', '//', '.', 'use '))
+                and st.count('(') == st.count(')') and st.count('{') == st.count('}') and l.startswith('\t\t'))
+    for i, l in enumerate(lines):
+        if re.match(r'^(pub )?mod tests? \{', l.strip()):
+            break
+        if simple_stmt(l):
+            out.append((i, l + '\n' + l, 'dup-stmt'))
+            if i + 1 < len(lines) and simple_stmt(lines[i + 1]) and lines[i + 1] != l and \
+                    (len(l) - len(l.lstrip())) == (len(lines[i + 1]) - len(lines[i + 1].lstrip())):
+                out.append(((i, i + 1), lines[i + 1] + '\n' + l, 'swap-adjacent'))
     # dedupe no-ops
-    return [(i, n, op) for i, n, op in out if n is None or n != lines[i]]
+    return [(i, n, op) for i, n, op in out if n is None or isinstance(i, tuple) or n != lines[i]]
 
 
 _SIB = None
@@ -246,7 +259,8 @@ def main():
                 continue
             if isinstance(i, tuple):
                 ls = text.split('\n')
-                mus.append({'file': fn, 'line': i[0], 'end': i[1], 'old': ls[i[0]], 'new': ls[i[0]][:len(ls[i[0]]) - len(ls[i[0]].lstrip())] + '// (deleted statement)', 'op': op})
+                mus.append({'file': fn, 'line': i[0], 'end': i[1], 'old': ls[i[0]],
+                            'new': new if new is not None else ls[i[0]][:len(ls[i[0]]) - len(ls[i[0]].lstrip())] + '// (deleted statement)', 'op': op})
             else:
                 mus.append({'file': fn, 'line': i, 'old': text.split('\n')[i], 'new': new, 'op': op})
     random.shuffle(mus)
